@@ -35,7 +35,20 @@ CLAIMS = {
     },
     "C03": {"text": "", "note": "", "technique": "motif-kernel completeness and kernel-boundary typing over the Cython parse tree"},
     "C05": {"text": "", "note": "", "technique": "who-may-write, copy-completeness and save/load table agreement over Python ast"},
-    "C06": {"text": "", "note": "", "technique": "alias + in-place mutation analysis over Python ast"},
+    "C06": {
+        "text": ("Flow-sensitive may-alias analysis of arrays in every function "
+                 "(~900) with inter-procedural mutation/return-origin summaries: "
+                 "every in-place operation whose target may alias a memoised "
+                 "return value, a value obtained from a held object, or a caller's "
+                 "argument is an obligation; only proven restore pairs and "
+                 "documented in-place functions discharge it. Holds for all call "
+                 "orders, which tests cannot enumerate."),
+        "note": ("Decides array edits only (not 'a random query repeats "
+                 "identically'); assumes path-length matrices have a zero diagonal "
+                 "(restore idiom); closures/dynamic callables not followed; "
+                 "frozen tables of alias-preserving and in-place numpy operations."),
+        "technique": "static may-alias + in-place mutation analysis over Python ast with fixpoint summaries",
+    },
     "C07": {"text": "", "note": "", "technique": "kernel-boundary typing, must-pass-through and sibling agreement"},
     "C08": {"text": "", "note": "", "technique": "wrapper/dispatch table agreement over the Cython parse tree and Python ast"},
     "C09": {"text": "", "note": "", "technique": "must-pass-through (funnel) analysis over Python ast"},
@@ -48,6 +61,21 @@ CLAIMS = {
     "C16": {"text": "", "note": "", "technique": "registry exhaustiveness, option flow, undefined-attribute rule"},
     "C17": {"text": "", "note": "", "technique": "swap multiset/guard analysis over the Cython parse tree"},
     "C18": {"text": "", "note": "", "technique": "update-order and memo-reset rules over Python ast"},
-    "C19": {"text": "", "note": "", "technique": "serial/parallel sibling agreement, chunk-template and control-dependence analysis"},
+    "C19": {
+        "text": ("Source-level equivalence of the distributed and serial "
+                 "branches of the four distributable betweenness measures (dead "
+                 "code under the tests): submit/collect pairing, static resolution "
+                 "of the worker string, position-wise argument correspondence "
+                 "under chunk restriction, chunk-template membership (partition "
+                 "lemma on paper), result re-assembly vs worker result shape, "
+                 "chunk-relative/absolute index discipline in the workers, "
+                 "loop-carried state of the batched kernel, and repo-wide "
+                 "independence from silence_level."),
+        "note": ("utils/mpi.py itself (scheduling, FIFO per worker, pickling) and "
+                 "numpy's array_split are trusted; floating-point summation order "
+                 "not considered; accepted chunk idioms are the ceil-division "
+                 "template and np.array_split."),
+        "technique": "static sibling agreement, template matching and control-dependence analysis over Python ast + Cython parse tree",
+    },
     "C20": {"text": "", "note": "", "technique": "directive check, pointer-width/contiguity/size provenance, affine bounds over clang AST"},
 }
